@@ -251,6 +251,29 @@ macro_rules! specs_for {
         }
         both!(Hwb<S, T>, 3, 4, meta("Hwb", Shape::HwbCone { w: 1, b: 2 }, vec![ph(), pb("whiteness", Hwb::<S, T>::min_whiteness(), Hwb::<S, T>::max_whiteness()), pb("blackness", Hwb::<S, T>::min_blackness(), Hwb::<S, T>::max_blackness())], Some("RgbHue"), true, Some(hwb_to_hsv)));
         both!(Okhwb<T>, 3, 4, meta("Okhwb", Shape::HwbCone { w: 1, b: 2 }, vec![ph(), pb("whiteness", Okhwb::<T>::min_whiteness(), Okhwb::<T>::max_whiteness()), pb("blackness", Okhwb::<T>::min_blackness(), Okhwb::<T>::max_blackness())], Some("OklabHue"), true, Some(okhwb_to_okhsv)));
+        // other white points: the Standard range of Xyz (and Lms) is scaled by the white point
+        macro_rules! xyz_wp {
+            ($W:ident, $n:literal) => {
+                both!(Xyz<palette::white_point::$W, T>, 3, 4, meta($n, Shape::Cartesian, vec![pb("x", Xyz::<palette::white_point::$W, T>::min_x(), Xyz::<palette::white_point::$W, T>::max_x()), pb("y", Xyz::<palette::white_point::$W, T>::min_y(), Xyz::<palette::white_point::$W, T>::max_y()), pb("z", Xyz::<palette::white_point::$W, T>::min_z(), Xyz::<palette::white_point::$W, T>::max_z())], None, false, None));
+            };
+        }
+        xyz_wp!(D50, "Xyz<D50>");
+        xyz_wp!(A, "Xyz<A>");
+        xyz_wp!(E, "Xyz<E>");
+        xyz_wp!(C, "Xyz<C>");
+        xyz_wp!(D75, "Xyz<D75>");
+        xyz_wp!(F2, "Xyz<F2>");
+        {
+            use palette::white_point::D50;
+            both!(VonKriesLms<D50, T>, 3, 4, meta("Lms<D50>", Shape::Cartesian, vec![pmin("long", VonKriesLms::<D50, T>::min_long(), 1.0), pmin("medium", VonKriesLms::<D50, T>::min_medium(), 1.0), pmin("short", VonKriesLms::<D50, T>::min_short(), 1.0)], None, false, None));
+            both!(Yxy<D50, T>, 3, 4, meta("Yxy<D50>", Shape::Cartesian, vec![pb("x", Yxy::<D50, T>::min_x(), Yxy::<D50, T>::max_x()), pb("y", Yxy::<D50, T>::min_y(), Yxy::<D50, T>::max_y()), pb("luma", Yxy::<D50, T>::min_luma(), Yxy::<D50, T>::max_luma())], None, false, None));
+            both!(Lab<D50, T>, 3, 4, meta("Lab<D50>", Shape::Cartesian, vec![pb("l", Lab::<D50, T>::min_l(), Lab::<D50, T>::max_l()), pb("a", Lab::<D50, T>::min_a(), Lab::<D50, T>::max_a()), pb("b", Lab::<D50, T>::min_b(), Lab::<D50, T>::max_b())], None, false, None));
+            both!(Luv<D50, T>, 3, 4, meta("Luv<D50>", Shape::Cartesian, vec![pb("l", Luv::<D50, T>::min_l(), Luv::<D50, T>::max_l()), pb("u", Luv::<D50, T>::min_u(), Luv::<D50, T>::max_u()), pb("v", Luv::<D50, T>::min_v(), Luv::<D50, T>::max_v())], None, false, None));
+            both!(Hsluv<D50, T>, 3, 4, meta("Hsluv<D50>", Shape::Bicone { s: 1, l: 2, scale: 100.0 }, vec![ph(), pb("saturation", Hsluv::<D50, T>::min_saturation(), Hsluv::<D50, T>::max_saturation()), pb("l", Hsluv::<D50, T>::min_l(), Hsluv::<D50, T>::max_l())], Some("LuvHue"), false, None));
+            type P = encoding::Rec2020;
+            both!(Rgb<P, T>, 3, 4, meta("Rec2020", Shape::Cartesian, vec![pb("red", Rgb::<P, T>::min_red(), Rgb::<P, T>::max_red()), pb("green", Rgb::<P, T>::min_green(), Rgb::<P, T>::max_green()), pb("blue", Rgb::<P, T>::min_blue(), Rgb::<P, T>::max_blue())], None, false, None));
+            both!(Hsv<P, T>, 3, 4, meta("Hsv<Rec2020>", Shape::Cone { s: 1, v: 2 }, vec![ph(), pb("saturation", Hsv::<P, T>::min_saturation(), Hsv::<P, T>::max_saturation()), pb("value", Hsv::<P, T>::min_value(), Hsv::<P, T>::max_value())], Some("RgbHue"), true, None));
+        }
         let _ = <D65 as WhitePoint<T>>::get_xyz();
         v
     }};
